@@ -363,3 +363,206 @@ Proof.
   intros H. unfold inner_text_first_pinned, first_pinned, inner_text_sel, first, first_of, sel_text.
   rewrite H. cbn. rewrite app_nil_r. reflexivity.
 Qed.
+
+(* ---------- written text is one text node, whatever it contains *)
+Lemma text_write_is_leaf d t :
+  inner_html (set_text d t) = [T t] /\ children (set_text d t) = [] /\ inner_text (set_text d t) = t.
+Proof. repeat split. cbn. apply app_nil_r. Qed.
+
+(* ---------- the element wrapper's caches never show: every history of reads
+   and writes through one wrapper reads what the cache-free meaning reads *)
+Definition coherent (w : wrap) : Prop :=
+  (w_attrs w = None \/ w_attrs w = Some (w_node w)) /\
+  (w_styles w = None \/ w_styles w = Some (sp_styles (w_node w))).
+
+Lemma fresh_coherent n : coherent (fresh n).
+Proof. split; left; reflexivity. Qed.
+
+Lemma ensure_attrs_spec w : coherent w ->
+  coherent (ensure_attrs w) /\ w_node (ensure_attrs w) = w_node w /\
+  w_attrs (ensure_attrs w) = Some (w_node w) /\ w_styles (ensure_attrs w) = w_styles w.
+Proof.
+  destruct w as [n a s]. intros [[Ha|Ha] Hs]; cbn in *; subst a; unfold ensure_attrs; cbn;
+    (split; [split; [right; reflexivity|exact Hs]|repeat split]).
+Qed.
+
+Lemma ensure_styles_spec w : coherent w ->
+  coherent (ensure_styles w) /\ w_node (ensure_styles w) = w_node w /\
+  w_styles (ensure_styles w) = Some (sp_styles (w_node w)) /\ w_attrs (ensure_styles w) = w_attrs w.
+Proof.
+  destruct w as [n a s]. intros [Ha [Hs|Hs]]; cbn in *; subst s; unfold ensure_styles; cbn;
+    (split; [split; [exact Ha|right; reflexivity]|repeat split]).
+Qed.
+
+Lemma sp_set_keeps_styles a s : is_style a = false -> sp_styles (sp_set a s) = sp_styles s.
+Proof.
+  destruct a as [k v|d]; cbn; [|discriminate]. intros H. rewrite H. reflexivity.
+Qed.
+
+Lemma w_set_attribute_spec a w : coherent w ->
+  coherent (w_set_attribute a w) /\ w_node (w_set_attribute a w) = sp_set a (w_node w).
+Proof.
+  intros C. destruct (ensure_attrs_spec w C) as [C1 [N1 [A1 S1]]].
+  unfold w_set_attribute, the_attrs. rewrite A1, N1, S1. cbn [w_node w_attrs w_styles].
+  split; [|reflexivity]. split; [right; reflexivity|].
+  destruct (is_style a) eqn:I; [left; reflexivity|]. cbn [w_styles w_node].
+  rewrite (sp_set_keeps_styles a _ I). exact (proj2 C).
+Qed.
+
+Lemma w_set_attributes_spec l : forall w, coherent w ->
+  coherent (fold_left (fun w a => w_set_attribute a w) l w) /\
+  w_node (fold_left (fun w a => w_set_attribute a w) l w) = fold_left (fun s a => sp_set a s) l (w_node w).
+Proof.
+  induction l as [|a l IH]; intros w C; cbn [fold_left]; [split; [exact C|reflexivity]|].
+  destruct (w_set_attribute_spec a w C) as [C1 N1].
+  destruct (IH _ C1) as [C2 N2]. split; [exact C2|]. rewrite N2, N1. reflexivity.
+Qed.
+
+Lemma sp_rm_keeps_styles n s : bytes_eqb n style_name = false -> sp_styles (sp_rm n s) = sp_styles s.
+Proof. intros H. unfold sp_rm. rewrite H. reflexivity. Qed.
+
+Lemma w_remove_fold_spec names : forall w, coherent w -> w_attrs w = Some (w_node w) ->
+  let w' := fold_left (fun w n => mkW (sp_rm n (w_node w)) (Some (sp_rm n (the_attrs w)))
+                                      (if true && bytes_eqb n style_name then None else w_styles w)) names w in
+  coherent w' /\ w_node w' = fold_left (fun s n => sp_rm n s) names (w_node w).
+Proof.
+  induction names as [|n names IH]; intros w C A; cbn [fold_left]; [split; [exact C|reflexivity]|].
+  apply IH; [|unfold the_attrs; rewrite A; reflexivity].
+  unfold the_attrs. rewrite A. split; cbn [w_node w_attrs w_styles]; [right; reflexivity|].
+  cbn [andb]. destruct (bytes_eqb n style_name) eqn:E; [left; reflexivity|].
+  rewrite (sp_rm_keeps_styles n _ E). exact (proj2 C).
+Qed.
+
+Lemma w_remove_attribute_spec names w : coherent w ->
+  coherent (w_remove_attribute true names w) /\
+  w_node (w_remove_attribute true names w) = fold_left (fun s n => sp_rm n s) names (w_node w).
+Proof.
+  intros C. destruct (ensure_attrs_spec w C) as [C1 [N1 [A1 S1]]].
+  unfold w_remove_attribute.
+  destruct (w_remove_fold_spec names (ensure_attrs w) C1) as [C2 N2]; [rewrite A1, N1; reflexivity|].
+  split; [exact C2|]. rewrite N2, N1. reflexivity.
+Qed.
+
+Lemma w_write_styles_spec f w : coherent w ->
+  coherent (w_write_styles f w) /\
+  w_node (w_write_styles f w) = sp_set (SetS (f (sp_styles (w_node w)))) (w_node w).
+Proof.
+  intros C. destruct (ensure_styles_spec w C) as [C1 [N1 [S1 A1]]].
+  unfold w_write_styles, the_styles. rewrite S1, N1, A1.
+  unfold w_set_attribute, ensure_attrs, the_attrs. cbn [w_node w_attrs w_styles is_style].
+  destruct C as [[Ha|Ha] _]; rewrite Ha; cbn [w_node w_attrs w_styles];
+    (split; [split; [right; reflexivity|left; reflexivity]|reflexivity]).
+Qed.
+
+Lemma w_read_spec r w : coherent w ->
+  coherent (fst (w_read r w)) /\ w_node (fst (w_read r w)) = w_node w /\ snd (w_read r w) = sp_read r (w_node w).
+Proof.
+  intros C.
+  destruct (ensure_styles_spec w C) as [Cs [Ns [Ss As]]].
+  destruct (ensure_attrs_spec w C) as [Ca [Na [Aa Sa]]].
+  destruct r as [names| |names| |n]; cbn [w_read sp_read fst snd].
+  - unfold the_styles. rewrite Ss. split; [exact Cs|split; [exact Ns|reflexivity]].
+  - unfold the_styles. rewrite Ss. split; [exact Cs|split; [exact Ns|reflexivity]].
+  - unfold the_attrs. rewrite Aa. split; [exact Ca|split; [exact Na|reflexivity]].
+  - unfold the_attrs. rewrite Aa. split; [exact Ca|split; [exact Na|reflexivity]].
+  - destruct (bytes_eqb n style_name) eqn:E; cbn [fst snd].
+    + destruct (ensure_styles_spec _ Ca) as [C2 [N2 [S2 A2]]].
+      unfold the_styles. rewrite S2, N2, Na. split; [exact C2|split; reflexivity].
+    + unfold the_attrs. rewrite Aa. split; [exact Ca|split; [exact Na|reflexivity]].
+Qed.
+
+Lemma w_write_spec o w : coherent w ->
+  coherent (w_write true o w) /\ w_node (w_write true o w) = sp_write o (w_node w).
+Proof.
+  intros C. destruct o as [r|r|a|l|k v|kvs|names|names]; cbn [w_write sp_write].
+  - split; [exact C|reflexivity].
+  - split; [exact C|reflexivity].
+  - apply w_set_attribute_spec. exact C.
+  - destruct (ensure_attrs_spec w C) as [C1 [N1 _]].
+    destruct (w_set_attributes_spec l _ C1) as [C2 N2]. split; [exact C2|]. rewrite N2, N1. reflexivity.
+  - apply w_write_styles_spec. exact C.
+  - apply w_write_styles_spec. exact C.
+  - apply w_remove_attribute_spec. exact C.
+  - destruct names as [|n names]; [split; [exact C|reflexivity]|]. apply w_write_styles_spec. exact C.
+Qed.
+
+Lemma w_run_refines ops : forall w, coherent w -> w_run true ops w = sp_run ops (w_node w).
+Proof.
+  induction ops as [|o ops IH]; intros w C; [reflexivity|].
+  destruct o as [r|r|a|l|k v|kvs|names|names]; cbn [w_run sp_run].
+  - destruct (w_read_spec r w C) as [C1 [N1 R1]]. rewrite R1, (IH _ C1), N1. reflexivity.
+  - destruct (w_read_spec r (fresh (w_node w)) (fresh_coherent _)) as [_ [_ R1]].
+    rewrite R1, (IH _ C). reflexivity.
+  - destruct (w_write_spec (WAttr a) w C) as [C1 N1]. rewrite (IH _ C1), N1. reflexivity.
+  - destruct (w_write_spec (WAttrs l) w C) as [C1 N1]. rewrite (IH _ C1), N1. reflexivity.
+  - destruct (w_write_spec (WStyle k v) w C) as [C1 N1]. rewrite (IH _ C1), N1. reflexivity.
+  - destruct (w_write_spec (WStyles kvs) w C) as [C1 N1]. rewrite (IH _ C1), N1. reflexivity.
+  - destruct (w_write_spec (RmAttr names) w C) as [C1 N1]. rewrite (IH _ C1), N1. reflexivity.
+  - destruct (w_write_spec (RmStyle names) w C) as [C1 N1]. rewrite (IH _ C1), N1. reflexivity.
+Qed.
+
+Lemma wrapper_caches_invisible ops n : w_run true ops (fresh n) = sp_run ops n.
+Proof. apply (w_run_refines ops (fresh n)). apply fresh_coherent. Qed.
+
+(* reads after a history see the state the writes of the history produced *)
+Lemma sp_run_app ops : forall l s, sp_run (ops ++ l) s = sp_run ops s ++ sp_run l (sp_state ops s).
+Proof.
+  induction ops as [|o ops IH]; intros l s; [reflexivity|].
+  destruct o; cbn [app sp_run]; unfold sp_state; cbn [fold_left sp_write]; try (rewrite IH; reflexivity).
+Qed.
+
+(* the style attribute a bulk attribute write leaves behind: its last assignment of "style" *)
+Definition style_after (l : list aset) (cur : option decls) : option decls :=
+  fold_left (fun acc a => match a with
+                          | SetS d => Some d
+                          | SetA k v => if bytes_eqb k style_name then Some (parse_style v) else acc
+                          end) l cur.
+
+Lemma sp_set_many_style l : forall s, s_style (fold_left (fun s a => sp_set a s) l s) = style_after l (s_style s).
+Proof.
+  induction l as [|a l IH]; intros s; [reflexivity|]. unfold style_after in *. cbn [fold_left]. rewrite IH. f_equal.
+  destruct a as [k v|d]; cbn [sp_set]; [|reflexivity]. destruct (bytes_eqb k style_name); reflexivity.
+Qed.
+
+Lemma style_after_any l : forall d, style_after l None = Some d -> forall cur, style_after l cur = Some d.
+Proof.
+  unfold style_after. induction l as [|a l IH]; intros d H cur; cbn [fold_left] in *; [discriminate|].
+  destruct a as [k v|d']; [destruct (bytes_eqb k style_name)|]; try exact H. apply IH. exact H.
+Qed.
+
+(* whatever was read or written before (reads that filled the caches included):
+   after a bulk attribute write that assigns "style", a style read returns the
+   declarations of its last such assignment *)
+Lemma style_read_after_bulk_write ops n l d names : style_after l None = Some d ->
+  w_run true (ops ++ [WAttrs l; Rd (RStyle names)]) (fresh n) =
+  w_run true ops (fresh n) ++ [RdOpt (map (fun x => assoc x d) names)].
+Proof.
+  intros H. rewrite !wrapper_caches_invisible, sp_run_app. f_equal.
+  cbn [sp_run sp_write sp_read]. unfold sp_styles. rewrite sp_set_many_style.
+  rewrite (style_after_any l d H). reflexivity.
+Qed.
+
+(* the same for every other way of writing a style: STYLE_SET then STYLE_GET *)
+Lemma style_read_after_style_set ops n k v :
+  w_run true (ops ++ [WStyle k v; Rd (RStyle [k])]) (fresh n) = w_run true ops (fresh n) ++ [RdOpt [Some v]].
+Proof.
+  rewrite !wrapper_caches_invisible, sp_run_app. f_equal.
+  cbn [sp_run sp_write sp_read sp_set sp_styles s_style map]. rewrite assoc_set_same. reflexivity.
+Qed.
+
+(* removing the style attribute leaves no style to read *)
+Lemma style_read_after_attr_remove ops n names :
+  w_run true (ops ++ [RmAttr [style_name]; Rd (RStyle names)]) (fresh n) =
+  w_run true ops (fresh n) ++ [RdOpt (map (fun _ => None) names)].
+Proof.
+  rewrite !wrapper_caches_invisible, sp_run_app. reflexivity.
+Qed.
+
+(* ... which the tree before the repair of RemoveAttribute does not do *)
+Lemma remove_style_pinned_refuted :
+  exists ops n, w_run false ops (fresh n) <> sp_run ops n.
+Proof.
+  exists [Rd (RStyle [bs "color"]); RmAttr [style_name]; Rd (RStyle [bs "color"])],
+         (mkS [] (Some [(bs "color", bs "red")])).
+  vm_compute. discriminate.
+Qed.
